@@ -909,6 +909,65 @@ def r12_every_definition_looks_at_the_shared_names(ctx, rule="C13.R12"):
     ctx.require(rule, 4)
 
 
+def r13_every_pass_starts_from_the_default_letter_table(ctx, rule="C13.R13"):
+    """`SINGLE unless a DEFINT/.../DEFSTR range covers its first letter`: a DEFtype statement applies from
+    where it stands.  Each pass over the program (the pre-linter that collects signatures, the converter that
+    resolves names) applies the DEFtype statements in program order as it meets them, so each must start from
+    the default table.  Wherever a context that holds the letter table is built, the table is a fresh one
+    (`new()` / `default()`), directly or handed in by a caller that makes a fresh one; a table taken over from
+    another pass is the table as it stands at the END of the program: a bare name used before a later DEFINT
+    gets the later type."""
+    prog = ctx.prog
+    n = 0
+
+    def fresh(f, o, depth=1):
+        so = mir.strip_all(o)
+        if so[0] == "call":
+            g = [x for x in prog.by_path.get(so[1], [])] if hasattr(prog, "by_path") else []
+            last = so[1].split("::")[-1]
+            return last in ("new", "default") and not so[2]
+        if so[0] == "param" and depth:
+            callers = [(c, t) for c in prog.fns.values() if c.body is not None and c.crate == "rusty_linter"
+                       for _b, t in c.body.calls() if (t.get("res") or mir.callee_of(t)) == f.id]
+            if not callers:
+                return False
+            return all(len(t["args"]) > so[1] and fresh(c, mir.Prov(c.body).of_operand(t["args"][so[1]]), depth - 1)
+                       for c, t in callers)
+        return False
+
+    for f in sorted(prog.fns.values(), key=lambda f: f.id):
+        if f.crate != "rusty_linter" or f.body is None:
+            continue
+        body = f.body
+        pv = mir.Prov(body)
+        for b, blk in enumerate(body.blocks):
+            if body.is_cleanup(b):
+                continue
+            for st in blk["s"]:
+                r = st.get("r", {})
+                if not (st["k"] == "assign" and r.get("k") == "agg" and r.get("a") == "adt"):
+                    continue
+                if r["adt"].endswith("TypeResolverImpl"):
+                    continue
+                for op in r["ops"]:
+                    pl = mir.op_place(op)
+                    if pl is None or pl[1] and False:
+                        continue
+                    ty = body.locals[pl[0]]["ty"] if not pl[1] else ""
+                    if not ty.endswith("TypeResolverImpl"):
+                        continue
+                    n += 1
+                    o = pv.of_operand(op)
+                    name = f.path.split("::", 1)[1]
+                    ctx.decide(fresh(f, o), rule, "%s:%s:%s" % (rule, name, r["adt"].split("::")[-1]), "%s:%s" % (f.file, st.get("ln")),
+                               "the letter table of the new %s is a fresh one" % r["adt"].split("::")[-1],
+                               "%s builds a %s around a DEFtype letter table that is not fresh (%s): the pass starts from the "
+                               "table another pass left behind, i.e. with every DEFtype statement of the program already applied - "
+                               "a bare name in front of a later `DEFINT A-Z` is an INTEGER" % (name, r["adt"].split("::")[-1], mir.short_origin(o)))
+    ctx.analysed_units(rule, contexts_built=n)
+    ctx.require(rule, 2)
+
+
 def run(ctx):
     common.install(ctx)
     from . import c09
@@ -925,3 +984,4 @@ def run(ctx):
     r10_written_suffix_is_looked_at(ctx)
     r11_argument_position_resolves_like_any_value(ctx)
     r12_every_definition_looks_at_the_shared_names(ctx)
+    r13_every_pass_starts_from_the_default_letter_table(ctx)
